@@ -60,7 +60,26 @@ def groups(tier, rng):
     for code in (250, 554, 421):
         for msg in MSGS + [b"5.7.1 a\n5.7.1 b", b"5.7.1 a\n5.7.2 b", b"+5.-7.1 x", b"5.7 x", b"5.7.1.2 x", b"9999999999999999999.1.1 x", b"5.7.1"]:
             halves.append("tosmtperr\t%d\t%s" % (code, hx(msg)))
-    return [Group("rt/errors", rt, theorems=THEOREMS),
+    # the backend's verdict on a chunked message after an earlier chunked transfer on the same connection was abandoned (RSET, a second
+    # EHLO) or refused: the final reply is this message's own result, judged against the delivery record (conv probe)
+    from vlib import convgen as g
+    from vlib.props import convcommon as cc
+    after = []
+    for lm in (0, 1):
+        for how in (b"RSET\r\n", b"EHLO again\r\n" if not lm else b"LHLO again\r\n"):
+            for res in (g.se(550, "5.7.1", b"refused by policy"), g.se(452, "4.3.1", b"full\nsee the log"), g.er(b"disk"), "ok"):
+                for first in (g.ddec(ret="prop"), g.ddec(want=1, ret=g.er(b"first one failed"))):
+                    c = g.Conv(dict(lmtp=lm))
+                    c.add((b"LHLO" if lm else b"EHLO") + b" x\r\n", NS="ok"); c.add(b"MAIL FROM:<s@x>\r\n", MAIL="ok"); c.add(b"RCPT TO:<r@x>\r\n", RCPT="ok")
+                    c.add(b"BDAT 3\r\nabc", DATA=first)
+                    c.add(how); c.add(b"MAIL FROM:<s2@x>\r\n", MAIL="ok"); c.add(b"RCPT TO:<r2@x>\r\n", RCPT="ok")
+                    c.add(b"BDAT 3 LAST\r\nxyz", DATA=g.ddec(ret=res))
+                    c.add(b"NOOP\r\n")
+                    for seg in ("line", "one"):
+                        after.append(c.case(seg=seg, rng=rng))
+    conv_project = lambda c, a: cc.project(a, codes="exact", enh=True, drecs="ret")
+    return [Group("conv/verdict-after-abandoned-chunked-transfer", after, theorems=THEOREMS, project=conv_project),
+            Group("rt/errors", rt, theorems=THEOREMS),
             Group("reply+tosmtperr", halves, theorems=THEOREMS, monitor=False),
             Group("e2e/backend-errors", e2egen.c17_cases(tier, rng), theorems=THEOREMS, project=lambda c, a: "")]
 
